@@ -85,6 +85,21 @@ def ill_typed_index_key(tt, item):
     return False
 
 
+def retypes_key_attr(t, op):
+    """an UpdateTable whose index definitions give a key attribute in use (of the table or of an existing index) another type"""
+    in_use = dict(t.schema)
+    for ix in t.indexes.values():
+        for name, typ in ix["schema"]:
+            in_use.setdefault(name, typ)
+    for ch in op.get("changes", []):
+        if "create" in ch:
+            k = ch["create"]["key"]
+            for name, typ in [k["hash"]] + ([k["range"]] if k.get("range") else []):
+                if name in in_use and in_use[name] != h2s(typ):
+                    return True
+    return False
+
+
 class SpecTable:
     def __init__(self, op):
         k = op["key"]
@@ -211,7 +226,7 @@ def run_world(case, sdk, checks):
             if k == "describe" and ("lifecycle" in checks or "index" in checks):
                 check_describe(w, i, t, o)
             continue
-        if name == "updateTable" and op.get("retype"):
+        if name == "updateTable" and retypes_key_attr(t, op):
             if k != "err" and ({"lifecycle", "index", "keys", "map", "observe"} & set(checks)):
                 w.flag(i, "key-attribute-retyped", "UpdateTable accepted attribute definitions that give a key attribute in use another type", impl=json.dumps(o)[:100])
             continue
@@ -527,6 +542,8 @@ def must_reject_search(w, t, op):
     sch, pool = search_schema(t, op)
     if sch is None or not pool:
         return False
+    if op.get("limit") and op["limit"] < len(pool):
+        return False      # the Limit counts every scanned item: the page may end before an item reaches the expression
     kp = expr_predicate(w, op, op["table"], "key", "keyCond", "keyTree") if not op.get("scan") else (lambda it: {"T"})
     fp = expr_predicate(w, op, op["table"], "filter", "filter", "filterTree")
     try:
